@@ -44,7 +44,7 @@ theorem step_invL {s s' : State} {e : Event} (hS : InvS s) (hN : InvN s) (hL : I
       rw [hpc] at hcl
       intro hpc'
       subst hpc'
-      have := congrArg List.length hcl.2.2
+      have := congrArg List.length hcl.2.2.1
       simp at this
     · have hcl := hL.claim a
       rw [hpc] at hcl
@@ -57,7 +57,7 @@ theorem step_invL {s s' : State} {e : Event} (hS : InvS s) (hN : InvN s) (hL : I
       rw [hpc] at hcl
       intro hpc'
       subst hpc'
-      have := congrArg List.length hcl.2.2
+      have := congrArg List.length hcl.2.2.1
       simp at this
     · have hcl := hL.claim a
       rw [hpc] at hcl
